@@ -80,6 +80,9 @@ func (r *pRun) setup() error {
 	if o.Focus {
 		opts = append(opts, tea.WithReportFocus())
 	}
+	if o.NoCatch {
+		opts = append(opts, tea.WithoutCatchPanics())
+	}
 	if o.Compressor {
 		opts = append(opts, tea.WithANSICompressor())
 	}
